@@ -198,11 +198,38 @@ def rule_c(ctx: Context, R: Reporter, hc: ClassInfo):
     if pred is None:
         raise AnalysisError("C15.c: predict not found")
     rets = [r for r in walk_no_nested(pred.node) if isinstance(r, ast.Return) and r.value is not None]
-    R.floor("C15.c", "returns of predict", len(rets), 2)
+    R.floor("C15.c", "returns of predict", len(rets), 1)
+    pflow = flow_of(pred.node)
+    n_red = 0
+
+    def label_defs(e, at, seen):
+        """Value expressions that can flow into a returned label vector (through plain names)."""
+        if isinstance(e, ast.Name):
+            out = []
+            for d in pflow.reaching(at, e.id):
+                if id(d) in seen:
+                    continue
+                seen.add(id(d))
+                if d.kind != "assign" or d.value is None:
+                    out.append((e, at))
+                elif isinstance(d.value, ast.Constant) and d.value.value is None and not d.path:
+                    continue  # `labels = None` placeholder, re-bound before use
+                elif d.path:
+                    out.append((ast.Subscript(value=d.value, slice=ast.Constant(value=d.path[0] if d.path else 0), ctx=ast.Load()), d.node))
+                else:
+                    out += label_defs(d.value, d.node, seen)
+            return out
+        return [(e, at)]
+
     for r in rets:
-        v = r.value
-        ok = isinstance(v, ast.Call) and (ctx.res.external_name(pred, v) or "") in ("numpy.argmax", "numpy.argmin") and const_value(call_arg(v, 1, "axis")) == 1
-        R.check("C15.c", "predict returns an arg-reduction over the cluster axis", ok, pred, r, msg=f"{pred.short}: returns `{unparse(v)[:60]}`", key=f"predict-argreduce:{norm_text(v)[:40]}")
+        rn = pflow.node_containing(r)
+        for (v, at) in label_defs(r.value, rn, set()):
+            ok = isinstance(v, ast.Call) and (ctx.res.external_name(pred, v) or "") in ("numpy.argmax", "numpy.argmin") and const_value(call_arg(v, 1, "axis")) == 1
+            n_red += 1 if ok else 0
+            R.check("C15.c", "predict returns an arg-reduction over the cluster axis", ok, pred, v if hasattr(v, "lineno") else r,
+                    msg=f"{pred.short}: returns `{unparse(v)[:60]}`: a label that is not the column index of the winning cluster (e.g. re-numbered to consecutive ids) no longer "
+                        f"addresses the cluster list / the proposal modes built from it", key=f"predict-argreduce:{norm_text(v)[:40]}")
+    R.floor("C15.c", "arg-reductions flowing into the returned labels", n_red, 2)
     # the probability matrix has n_clusters_ columns
     prob = hc.methods.get("_compute_gaussian_probabilities")
     if prob is not None:
@@ -263,6 +290,18 @@ def rule_d(ctx: Context, R: Reporter, gc: ClassInfo):
 
 
 def rule_e(ctx: Context, R: Reporter, gc: ClassInfo, hc: ClassInfo):
+    # library estimators with a weights argument: only the frequency-weight (maximum-likelihood) forms are
+    # equivalent to replicating points; np.cov(aweights=...) applies a reliability-weight bias correction
+    for f in ctx.prog.functions.values():
+        if f.module is not gc.module:
+            continue
+        for c in calls_in(f.node):
+            nm = ctx.res.external_name(f, c) or ""
+            if nm == "numpy.cov" and any(k.arg == "aweights" for k in c.keywords):
+                okb = any(k.arg == "bias" and const_value(k.value) is True for k in c.keywords) or any(k.arg == "ddof" and const_value(k.value) == 0 for k in c.keywords)
+                R.check("C15.e", "weighted covariance estimators are replication-consistent", okb, f, c,
+                        msg=f"{f.short}: `{unparse(c)[:70]}` uses np.cov's reliability weights with its default bias correction: the estimate differs from the one obtained by "
+                            f"replicating points according to integer weights (and from the EM M-step of the other code path)", key=f"cov-aweights:{f.short}")
     n = 0
     for cls in (gc, hc):
         fit = cls.methods["fit"]
